@@ -4,7 +4,9 @@
    Answer: (verdict id pass) | (verdict id (diff <what> <model> <impl>)) | (verdict id (fail <sig>...)) *)
 From Coq Require Import List NArith ZArith Bool String.
 From Coq.Strings Require Import Byte.
-From RTCP Require Import Lib.Base Lib.Sval Model.Feedback Spec.NackSpec Check.Codec Check.Ops.
+From RTCP Require Import Lib.Base Lib.Sval Lib.Reflect
+  Model.Header Model.Reports Model.Sdes Model.ByeApp Model.Feedback Model.Twcc Model.Ccfb Model.Remb Model.Xr Model.Packet
+  Spec.NackSpec Spec.Enc Spec.XrSpec Spec.Laws Check.Codec Check.Ops.
 Import ListNotations.
 Local Open Scope string_scope.
 Local Open Scope list_scope.
@@ -61,11 +63,702 @@ Definition C12_agree (id op m i : sval) : option sval :=
   | _ => agree_all id m i
   end.
 
+(* ---------------- shared helpers ---------------- *)
+Fixpoint forallb2 {A B} (f : A -> B -> bool) (a : list A) (b : list B) : bool :=
+  match a, b with [], [] => true | x :: a', y :: b' => f x y && forallb2 f a' b' | _, _ => false end.
+Definition assoc (k : string) (obs : sval) : option sval :=
+  match obs with
+  | SL l => (fix go (l : list sval) : option sval :=
+               match l with
+               | SL [SY n; v] :: r => if String.eqb n k then Some v else go r
+               | _ :: r => go r
+               | [] => None
+               end) l
+  | _ => None
+  end.
+Definition res_class (v : sval) : string :=
+  match v with SL (SY c :: _) => c | SY c => c | _ => "malformed" end.
+Definition ok_payload (v : sval) : option sval :=
+  match v with SL [SY c; x] => if String.eqb c "ok" then Some x else None | _ => None end.
+Definition packet_eqb (a b : packet) : bool := sval_eqb (s_packet (canon a)) (s_packet (canon b)).
+Fixpoint packets_eqb (a b : list packet) : bool :=
+  match a, b with [], [] => true | x :: a', y :: b' => packet_eqb x y && packets_eqb a' b' | _, _ => false end.
+Definition tname (p : packet) : sval := SY (name_of_tag (tag_of_packet p)).
+(* failure signature for a packet: its type, and for a compound also the first member type for which [bad] holds *)
+Definition tsig (bad : packet -> bool) (p : packet) : list sval :=
+  match p with
+  | PCompound l => tname p :: match filter bad l with x :: _ => [tname x] | [] => [] end
+  | _ => [tname p]
+  end.
+(* shapes of input that the open findings are about; named in failure signatures so that a finding can be
+   matched narrowly (DESIGN.md section 6) *)
+Definition reasons1 (p : packet) : list sval :=
+  match p with
+  | PSLI _ => [SY "sli_pt"]
+  | PREMB x => match remb_floor (remb_bitrate x) with Some 0%Z => [SY "mantissa_zero"] | _ => [] end
+  | PCCFB x =>
+      (if existsb (fun b => nl (cb_metrics b) =? 1) (cc_blocks x) then [SY "one_metric_block"] else [])
+      ++ (if existsb (fun b => (0 <? nl (cb_metrics b)) && (65535 <? cb_begin b + nl (cb_metrics b) - 1)) (cc_blocks x) then [SY "range_wraps"] else [])
+  | _ => []
+  end.
+Definition member_suspect (p : packet) : bool := match reasons1 p with [] => false | _ => true end.
+Definition reasons (p : packet) : list sval :=
+  match p with PCompound l => flat_map reasons1 (firstn 1 (filter member_suspect l)) | _ => reasons1 p end.
+Definition ok_packet (v : sval) : option packet := let? x := ok_payload v in p_packet x.
+Definition ok_packets (v : sval) : option (list packet) := let? x := ok_payload v in p_packets x.
+Definition ok_bytes (v : sval) : option bytes := let? x := ok_payload v in as_B x.
+Definition meta_N (k : string) (meta : sval) : N :=
+  match meta with SL (SY _ :: l) => match assoc k (SL l) with Some (SN n) => n | _ => 0 end | _ => 0 end.
+Definition op_name (op : sval) : string := match op with SL (SY o :: _) => o | _ => "" end.
+Definition op_arg1 (op : sval) : sval := match op with SL (_ :: a :: _) => a | _ => SL [] end.
+Definition op_arg2 (op : sval) : sval := match op with SL (_ :: _ :: a :: _) => a | _ => SL [] end.
+Definition op_arg3 (op : sval) : sval := match op with SL (_ :: _ :: _ :: a :: _) => a | _ => SL [] end.
+Definition sym_name (v : sval) : string := match v with SY s => s | _ => "" end.
+Definition is_class (c : string) (v : sval) : bool := String.eqb (res_class v) c.
+
+(* ---------------- C01 ---------------- *)
+Definition input_len (op : sval) : N :=
+  match op with
+  | SL [_; SB b] => len b
+  | SL [_; _; SB b] => len b
+  | _ => 0
+  end.
+Definition C01_holds (op impl meta : sval) : holds :=
+  let who := match op with SL [SY o; SY n; _] => n | SL (SY o :: _) => o | _ => "" end in
+  if is_class "panic" impl then HFail [SY "panic"; SY who]
+  else if 8388608 + 512 * input_len op <? meta_N "alloc" meta then HFail [SY "alloc"; SY who]
+  else if 5000000000 <? meta_N "ns" meta then HFail [SY "time"; SY who]
+  else if is_class "ok" impl || is_class "err" impl then HPass
+  else HFail [SY "malformed_observation"].
+(* what is compared with the model for C01: does the call panic *)
+Definition C01_agree (id m i : sval) : option sval :=
+  if Bool.eqb (is_class "panic" m || is_class "fuel" m) (is_class "panic" i) then None else Some (diff id "panics" m i).
+
+(* ---------------- C02 ---------------- *)
+Definition C02_holds (op impl : sval) : holds :=
+  match op with
+  | SL [SY o; a] =>
+      if String.eqb o "rt" then
+        match p_packet a with
+        | Some p =>
+            if negb (in_D p) then HTrivial else
+            let T := tname p in
+            match assoc "marshal" impl, assoc "own" impl, assoc "dgram" impl, assoc "remarshal" impl with
+            | Some mr, Some own, Some dg, Some re =>
+                match ok_bytes mr with
+                | None => HFail ([SY "marshal_failed"; T] ++ reasons p)
+                | Some b =>
+                    match ok_packet own with
+                    | None => HFail ([SY "own_decode_failed"; T] ++ reasons p)
+                    | Some v =>
+                        if negb (packet_eqb v (q p)) then HFail (SY "own_decode_differs" :: tsig member_suspect p ++ reasons p) else
+                        let expected := match p with PCompound l => map q l | _ => [q p] end in
+                        match ok_packets dg with
+                        | None => HFail ([SY "datagram_decode_failed"; T] ++ reasons p)
+                        | Some vs =>
+                            if negb (forallb2 (fun x y => tag_eqb (tag_of_packet x) (tag_of_packet y)) vs expected)
+                            then HFail ([SY "datagram_type_mismatch"; T] ++ reasons p)
+                            else if negb (packets_eqb vs expected) then HFail ([SY "datagram_decode_differs"; T] ++ reasons p)
+                            else match ok_bytes re with
+                                 | Some b' => if bytes_eqb b b' then HPass else HFail ([SY "remarshal_differs"; T] ++ reasons p)
+                                 | None => HFail ([SY "remarshal_failed"; T] ++ reasons p)
+                                 end
+                        end
+                    end
+                end
+            | _, _, _, _ => HFail [SY "malformed_observation"]
+            end
+        | None => HTrivial
+        end
+      else if String.eqb o "rts" then
+        match p_packets a with
+        | Some ps =>
+            if negb (forallb in_D ps) || match ps with [] => true | _ => false end then HTrivial else
+            match assoc "marshal" impl, assoc "dgram" impl, assoc "remarshal" impl with
+            | Some mr, Some dg, Some re =>
+                match ok_bytes mr, ok_packets dg, ok_bytes re with
+                | Some b, Some vs, Some b' =>
+                    let expected := flat_map (fun p => match p with PCompound l => map q l | _ => [q p] end) ps in
+                    if negb (packets_eqb vs expected) then HFail (SY "list_decode_differs" :: reasons (PCompound ps))
+                    else if bytes_eqb b b' then HPass else HFail [SY "list_remarshal_differs"]
+                | None, _, _ => HFail [SY "list_marshal_failed"]
+                | _, None, _ => HFail (SY "list_decode_failed" :: reasons (PCompound ps))
+                | _, _, None => HFail [SY "list_remarshal_failed"]
+                end
+            | _, _, _ => HFail [SY "malformed_observation"]
+            end
+        | None => HTrivial
+        end
+      else HTrivial
+  | _ => HTrivial
+  end.
+
+(* ---------------- C03 ---------------- *)
+(* APP padding octets other than the last are unspecified: masked out of the comparison *)
+Definition app_masked (p : packet) (b : bytes) : bytes :=
+  match p with
+  | PAPP a => let pl := N.to_nat (app_pad a) in
+              if (1 <? pl)%nat then firstn (List.length b - pl) b ++ zeros (N.of_nat (pl - 1)) ++ skipn (List.length b - 1) b else b
+  | _ => b
+  end.
+Definition C03_holds (op impl : sval) : holds :=
+  match op with
+  | SL [SY o; a] =>
+      if String.eqb o "enc" then
+        match p_packet a with
+        | Some p =>
+            if negb (in_D p) then HTrivial else
+            match assoc "marshal" impl with
+            | Some mr =>
+                match ok_bytes mr with
+                | Some b => if bytes_eqb (app_masked p b) (app_masked p (enc_spec p)) then HPass
+                            else HFail (SY "wire_layout" :: tsig (fun m => negb (sval_eqb (sres SB (marshal_packet m)) (sres SB (Ok (enc_spec m))))) p ++ reasons p)
+                | None => HFail [SY "marshal_failed"; tname p]
+                end
+            | None => HFail [SY "malformed_observation"]
+            end
+        | None => HTrivial
+        end
+      else HTrivial
+  | _ => HTrivial
+  end.
+
+(* ---------------- C04 ---------------- *)
+Definition C04_holds (op impl : sval) : holds :=
+  match op with
+  | SL [SY o; SY n; SB b; ex] =>
+      if String.eqb o "variant" then
+        match p_packet ex, assoc "own" impl, assoc "dgram" impl with
+        | Some e, Some own, Some dg =>
+            match ok_packet own with
+            | Some v =>
+                if negb (packet_eqb v e) then HFail [SY "fields_differ"; SY n] else
+                match ok_packets dg with
+                | Some [v'] => if packet_eqb v' e then HPass else HFail [SY "datagram_fields_differ"; SY n]
+                | _ => HFail [SY "datagram_rejected"; SY n]
+                end
+            | None => HFail [SY "valid_encoding_rejected"; SY n]
+            end
+        | _, _, _ => HTrivial
+        end
+      else HTrivial
+  | SL [SY o; SY n; SB b] =>
+      (* count-inflated SR/RR/SDES/BYE must be rejected; the generator marks them by raising the count of a valid encoding *)
+      HTrivial
+  | _ => HTrivial
+  end.
+(* a header count that claims more elements than the packet holds must be rejected; capacity by size:
+   SR (len-28)/24, RR (len-8)/24, BYE (len-4)/4, SDES at most (len-4)/8 chunks (a chunk is at least 8 octets) *)
+Definition C04_inflated (op impl : sval) (kind : string) : holds :=
+  match op with
+  | SL [_; _; SB b] =>
+      let count := b2n (nth 0 b x00) mod 32 in
+      let n := len b in
+      let capacity :=
+        if String.eqb kind "SenderReport" then (n - 28) / 24
+        else if String.eqb kind "ReceiverReport" then (n - 8) / 24
+        else if String.eqb kind "Goodbye" then (n - 4) / 4
+        else (n - 4) / 8 in
+      if capacity <? count then (if is_class "err" impl then HPass else HFail [SY "inflated_count_accepted"; SY kind]) else HTrivial
+  | _ => HTrivial
+  end.
+
+(* ---------------- C05 ---------------- *)
+Definition C05_holds (op impl : sval) : holds :=
+  match op with
+  | SL [SY o; a] =>
+      if String.eqb o "enc" then
+        match p_packet a, assoc "marshal" impl, assoc "size" impl with
+        | Some p, Some mr, Some (SN size) =>
+            match ok_bytes mr with
+            | None => HTrivial
+            | Some b =>
+                let T := tname p in
+                let n := len b in
+                let consistent := match p with PTWCC t => twcc_hdr_consistent t | PRaw r => D_Raw r | PCompound l => forallb (fun q => match q with PTWCC t => twcc_hdr_consistent t | PRaw r => D_Raw r | _ => true end) l | _ => true end in
+                if negb consistent then HTrivial else
+                if negb (n =? size) then HFail [SY "length_ne_marshalsize"; T] else
+                match p with
+                | PCompound _ => if n mod 4 =? 0 then HPass else HFail [SY "unaligned"; T]
+                | _ =>
+                    if negb (n mod 4 =? 0) then HFail [SY "unaligned"; T] else
+                    if 65536 <=? n / 4 - 1 then HTrivial else
+                    match Header_unmarshal (firstn 4 b) with
+                    | Ok h =>
+                        if negb (h_len h =? n / 4 - 1) then HFail [SY "length_field"; T] else
+                        match expected_pt_count p with
+                        | Some (pt, c) =>
+                            if negb ((h_type h =? pt) && (h_count h =? c)) then HFail [SY "header_type_count"; T] else
+                            match assoc "hdr" impl with
+                            | Some hv => match p_header hv with
+                                         | Some h' => if (h_type h' =? h_type h) && (h_count h' =? h_count h) && (h_len h' =? h_len h) && Bool.eqb (h_pad h') (h_pad h)
+                                                      then HPass else HFail [SY "header_accessor"; T]
+                                         | None => HPass
+                                         end
+                            | None => HPass
+                            end
+                        | None => HPass
+                        end
+                    | _ => HFail [SY "header_unparsable"; T]
+                    end
+                end
+            end
+        | _, _, _ => HTrivial
+        end
+      else HTrivial
+  | _ => HTrivial
+  end.
+
+(* ---------------- C06 ---------------- *)
+Definition C06_holds (op impl : sval) : holds :=
+  match op with
+  | SL [SY o; a] =>
+      if String.eqb o "split" then
+        match p_bytes_list a, assoc "whole" impl, assoc "parts" impl with
+        | Some fs, Some w, Some (SL parts) =>
+            let whole_bytes := List.concat fs in
+            let all_ok := forallb (is_class "ok") parts && negb (match parts with [] => true | _ => false end) in
+            if all_ok then
+              match ok_packets w, omap ok_packets parts with
+              | Some ws, Some pss => if packets_eqb ws (List.concat pss) then HPass else HFail [SY "not_concatenation"]
+              | _, _ => HFail [SY "whole_rejected_parts_accepted"]
+              end
+            else
+              match split_frames (S (List.length whole_bytes)) whole_bytes with
+              | None | Some [] => if is_class "err" w then HPass else HFail [SY "malformed_accepted"]
+              | Some frames =>
+                  match ok_packets w with
+                  | Some ws => if (List.length ws =? List.length frames)%nat then HPass else HFail [SY "packet_count"]
+                  | None => if is_class "err" w then HPass else HFail [SY "panic_or_malformed"]
+                  end
+              end
+        | _, _, _ => HTrivial
+        end
+      else if String.eqb o "dgram" then
+        match as_B a with
+        | Some [] => if is_class "err" impl then HPass else HFail [SY "empty_accepted"]
+        | _ => HTrivial
+        end
+      else HTrivial
+  | _ => HTrivial
+  end.
+
+(* ---------------- C07 ---------------- *)
+Definition C07_holds (op impl : sval) : holds :=
+  match op with
+  | SL [SY o; SB b] =>
+      if String.eqb o "dgram" then
+        match split_frames 3 b with
+        | Some [f] =>
+            let t := frame_tag f in
+            match ok_packets impl with
+            | Some [p] =>
+                if negb (tag_eqb (tag_of_packet p) t) then HFail [SY "dispatch"; SY (name_of_tag t); tname p]
+                else match p with PRaw r => if bytes_eqb r f then HPass else HFail [SY "raw_not_verbatim"] | _ => HPass end
+            | Some _ => HFail [SY "packet_count"]
+            | None => if tag_eqb t TRaw then HFail [SY "unregistered_rejected"] else HTrivial
+            end
+        | _ => HTrivial
+        end
+      else HTrivial
+  | SL [SY o; SY n; SB b] =>
+      if String.eqb o "dec" then
+        match tag_of_name n, split_frames 3 b with
+        | Some t, Some [f] =>
+            let u := frame_tag f in
+            if tag_eqb t u || tag_eqb t TRaw || tag_eqb t TCompound || tag_eqb u TRaw then HTrivial
+            else if is_class "err" impl then HPass else HFail [SY "foreign_accepted"; SY n; SY (name_of_tag u)]
+        | _, _ => HTrivial
+        end
+      else HTrivial
+  | _ => HTrivial
+  end.
+
+(* ---------------- C08 ---------------- *)
+Definition C08_holds (op impl : sval) : holds :=
+  match op with
+  | SL [SY o; a] =>
+      if String.eqb o "enc" then
+        match p_packet a, assoc "marshal" impl with
+        | Some p, Some mr =>
+            let T := tname p in
+            if is_class "panic" mr then HFail [SY "panic"; T] else
+            if in_limits p then
+              (if is_class "ok" mr then HPass else if in_D p then HFail [SY "in_limits_rejected"; T] else HTrivial)
+            else
+              if is_class "err" mr then HPass else HFail (SY "over_limit_accepted" :: tsig (fun m => negb (in_limits m)) p)
+        | _, _ => HTrivial
+        end
+      else HTrivial
+  | _ => HTrivial
+  end.
+
+(* ---------------- C09 ---------------- *)
+Fixpoint twcc_all_consistent (ps : list packet) : bool :=
+  match ps with
+  | [] => true
+  | PTWCC t :: r => twcc_hdr_consistent t && twcc_all_consistent r
+  | _ :: r => twcc_all_consistent r
+  end.
+Definition C09_holds (op impl : sval) : holds :=
+  match assoc "dec1" impl, assoc "marshal" impl, assoc "dec2" impl with
+  | Some d1, Some mr, Some d2 =>
+      match ok_packets d1 with
+      | None => HTrivial
+      | Some ps =>
+          if is_class "panic" mr then HFail [SY "marshal_panics"] else
+          if negb (twcc_all_consistent ps) then HTrivial else
+          match ok_bytes mr with
+          | None => HTrivial
+          | Some _ =>
+              match ok_packets d2 with
+              | Some ps' => if packets_eqb ps ps' then HPass
+                            else HFail (SY "not_idempotent" :: match filter (fun '(x, y) => negb (packet_eqb x y)) (combine ps ps') with (x, _) :: _ => [tname x] | [] => [] end)
+              | None => HFail (SY "reencoding_rejected" :: map tname (firstn 1 ps))
+              end
+          end
+      end
+  | _, _, _ => HTrivial
+  end.
+
+(* ---------------- C10 ---------------- *)
+Definition C10_holds (op impl : sval) : holds :=
+  match op with
+  | SL [SY o; a] =>
+      match p_packet a with
+      | Some p =>
+          if String.eqb o "enc" then
+            match assoc "dest" impl with
+            | Some d => if sval_eqb d (sNs (dest_spec p)) then HPass else HFail [SY "dest"; tname p]
+            | None => HTrivial
+            end
+          else if String.eqb o "rt" then
+            if negb (in_D p) then HTrivial else
+            match assoc "own" impl with
+            | Some own => match ok_packet own with
+                          | Some v => if list_eqb (dest_spec v) (dest_spec p) then HPass else HFail [SY "dest_after_roundtrip"; tname p]
+                          | None => HTrivial
+                          end
+            | None => HTrivial
+            end
+          else HTrivial
+      | None => HTrivial
+      end
+  | _ => HTrivial
+  end.
+
+(* ---------------- C11 ---------------- *)
+Definition C11_holds (op impl : sval) : holds :=
+  match op with
+  | SL [SY o; a] =>
+      if String.eqb o "cp" then
+        match p_packets a, assoc "validate" impl, assoc "cname" impl, assoc "marshal" impl, assoc "size" impl, assoc "dest" impl with
+        | Some c, Some v, Some cn, Some mr, Some (SN size), Some d =>
+            let okc := compound_ok c in
+            if negb (Bool.eqb (is_class "ok" v) okc) then HFail [SY "validate"] else
+            if is_class "ok" mr && negb okc then HFail [SY "marshal_accepts_invalid"] else
+            if okc && forallb (fun p => is_ok (marshal_packet p)) c && negb (is_class "ok" mr) then HFail [SY "marshal_rejects_valid"] else
+            if okc && negb (match first_cname c with Some t => sval_eqb cn (SL [SB t; sbool false]) | None => false end) then HFail [SY "cname"] else
+            if negb (sval_eqb d (sNs (match c with [] => [] | f :: _ => dest_spec f end))) then HFail [SY "dest"] else
+            if negb (size =? fold_right (fun p acc => size_packet p + acc) 0 c) then HFail [SY "size"] else
+            HPass
+        | _, _, _, _, _, _ => HTrivial
+        end
+      else HTrivial
+  | SL [SY o; SY n; SB b] =>
+      (* CompoundPacket.Unmarshal succeeds exactly when the datagram decodes and the result validates *)
+      if String.eqb o "dec" && String.eqb n "CompoundPacket" then
+        match Unmarshal b with
+        | Ok ps => if Bool.eqb (is_class "ok" impl) (compound_ok ps) then HPass else HFail [SY "unmarshal_iff"]
+        | _ => if is_class "ok" impl then HFail [SY "unmarshal_iff"] else HPass
+        end
+      else HTrivial
+  | _ => HTrivial
+  end.
+
+(* ---------------- C13 ---------------- *)
+Local Open Scope Z_scope.
+Fixpoint wire_deltas (b : bytes) (types : list N) : option (list Z * N) :=   (* values in 250us units, octets used *)
+  match types with
+  | [] => Some ([], 0%N)
+  | t :: r =>
+      if (t =? 1)%N then
+        match b with
+        | x :: b' => match wire_deltas b' r with Some (vs, n) => Some (Z.of_N (b2n x) :: vs, (n + 1)%N) | None => None end
+        | _ => None end
+      else
+        match b with
+        | x :: y :: b' => match wire_deltas b' r with
+                          | Some (vs, n) => Some (int16_of (b2n x * 256 + b2n y)%N :: vs, (n + 2)%N) | None => None end
+        | _ => None end
+  end.
+Local Open Scope N_scope.
+Definition C13_one (raw : bytes) (t : TWCC) : holds :=
+  let types := filter is_recv (expand (tw_chunks t) (tw_count t)) in
+  if negb (list_eqb (map rd_type (tw_deltas t)) types) then HFail [SY "deltas_vs_statuses"] else
+  let start := 20 + 2 * nl (tw_chunks t) in
+  match wire_deltas (skipn (N.to_nat start) raw) types with
+  | None => HFail [SY "deltas_outside_packet"]
+  | Some (vs, used) =>
+      if negb (forallb2 (fun d v => Z.eqb (rd_delta d) (250 * v)) (tw_deltas t) vs) then HFail [SY "delta_value"] else
+      let declared := 4 * (h_len (tw_hdr t) + 1) in
+      if start + used <=? declared then HPass else HFail [SY "outside_declared_length"]
+  end.
+Definition twcc_abs (t : TWCC) : list N * list RecvDelta :=
+  (firstn (N.to_nat (tw_count t)) (expand (tw_chunks t) (tw_count t)), tw_deltas t).
+Definition C13_holds (op impl : sval) : holds :=
+  match op with
+  | SL [SY o; SY n; SB b] =>
+      if String.eqb o "dec" && String.eqb n "TransportLayerCC" then
+        match ok_packet impl with
+        | Some (PTWCC t) => C13_one b t
+        | _ => HTrivial
+        end
+      else HTrivial
+  | SL [SY o; SY n; SL bs] =>
+      if String.eqb o "decs" then
+        match impl with
+        | SL rs =>
+            match omap ok_packet rs with
+            | Some (PTWCC t0 :: ps) =>
+                let a0 := twcc_abs t0 in
+                if forallb (fun p => match p with
+                                     | PTWCC t => let a := twcc_abs t in
+                                                  list_eqb (fst a) (fst a0) && sval_eqb (SL (map s_delta (snd a))) (SL (map s_delta (snd a0)))
+                                     | _ => false end) ps
+                then HPass else HFail [SY "chunking_dependent"]
+            | Some _ => HTrivial
+            | None => HFail [SY "valid_chunking_rejected"]
+            end
+        | _ => HTrivial
+        end
+      else HTrivial
+  | _ => HTrivial
+  end.
+
+(* ---------------- C14 ---------------- *)
+Local Open Scope Z_scope.
+Definition dyadic_eqb (m1 e1 m2 e2 : Z) : bool :=      (* m1*2^e1 = m2*2^e2 *)
+  let e := Z.min e1 e2 in (m1 * 2 ^ (e1 - e) =? m2 * 2 ^ (e2 - e)).
+Local Open Scope N_scope.
+Definition C14_holds (op impl : sval) : holds :=
+  match op with
+  | SL [SY o; SY n; SB b] =>
+      if String.eqb o "dec" && String.eqb n "ReceiverEstimatedMaximumBitrate" then
+        match ok_packet impl with
+        | Some (PREMB p) =>
+            let b17 := b2n (nth 17 b x00) in
+            let e := b17 / 4 in
+            let m := (b17 mod 4) * 65536 + b2n (nth 18 b x00) * 256 + b2n (nth 19 b x00) in
+            if negb (nl (remb_ssrcs p) =? b2n (nth 16 b x00)) then HFail [SY "count_octet"] else
+            match remb_value (remb_bitrate p) with
+            | Some (m', e') => if dyadic_eqb m' e' (Z.of_N m) (Z.of_N e) then HPass
+                               else if m =? 0 then HFail [SY "decode_mantissa_zero"] else HFail [SY "decode_inexact"]
+            | None => HFail [SY "decode_not_finite"]
+            end
+        | _ => HTrivial
+        end
+      else HTrivial
+  | SL [SY o; a] =>
+      if String.eqb o "enc" then
+        match p_packet a, assoc "marshal" impl with
+        | Some (PREMB p), Some mr =>
+            match f32_of_bits (Z.of_N (remb_bitrate p)) with
+            | NaN => HTrivial
+            | Inf true => if is_class "err" mr then HPass else HFail [SY "negative_accepted"]
+            | Fin true m _ => if (0 <? m)%Z then (if is_class "err" mr then HPass else HFail [SY "negative_accepted"]) else HTrivial
+            | _ =>
+                if 255 <? nl (remb_ssrcs p) then (if is_class "err" mr then HPass else HFail [SY "count_octet"]) else
+                match ok_bytes mr with
+                | Some b =>
+                    let x := match f32_of_bits (Z.of_N (remb_bitrate p)) with Fin _ m e => ifloor m e | _ => (0x3FFFF * 2 ^ 63)%Z end in
+                    let '(e, m) := remb_ref x in
+                    let w := Z.to_N e * 2 ^ 18 + Z.to_N m in
+                    if negb (b2n (nth 16 b x00) =? nl (remb_ssrcs p)) then HFail [SY "count_octet"]
+                    else if bytes_eqb (firstn 3 (skipn 17 b)) (be 3 w) then HPass else HFail [SY "encode_not_floor"]
+                | None => HFail [SY "finite_rejected"]
+                end
+            end
+        | _, _ => HTrivial
+        end
+      else if String.eqb o "rt" then
+        match p_packet a, assoc "marshal" impl with
+        | Some (PREMB p), Some mr =>
+            if 255 <? nl (remb_ssrcs p) then (if is_class "err" mr then HPass else HFail [SY "count_octet"])
+            else match ok_bytes mr with
+                 | Some b => if b2n (nth 16 b x00) =? nl (remb_ssrcs p) then HPass else HFail [SY "count_octet"]
+                 | None => HFail [SY "finite_rejected"]
+                 end
+        | _, _ => HTrivial
+        end
+      else HTrivial
+  | _ => HTrivial
+  end.
+
+(* ---------------- C15 ---------------- *)
+Definition ts_ok (b : sblock) (ts : N) : bool :=
+  match b with
+  | SRLE _ t _ _ _ _ | SPRT t _ _ _ _ => ts mod 16 =? t mod 16
+  | SSS l d j toh _ => (ts =? (if l then 128 else 0) + (if d then 64 else 0) + (if j then 32 else 0) + (toh mod 4) * 8)
+  | SUnknown _ t _ => ts =? t
+  | _ => true
+  end.
+Definition bt_of (b : sblock) : N :=
+  match b with SRLE d _ _ _ _ _ => if d then 2 else 1 | SPRT _ _ _ _ _ => 3 | SRRT _ => 4 | SDLRR _ => 5 | SSS _ _ _ _ _ => 6 | SVoIP _ => 7 | SUnknown bt _ _ => bt end.
+Definition rle_even (b : sblock) : bool := match b with SRLE _ _ _ _ _ cs => nl cs mod 2 =? 0 | _ => true end.
+Definition C15_holds (op impl : sval) : holds :=
+  match op with
+  | SL [SY o; a] =>
+      if String.eqb o "rt" then
+        match p_packet a, assoc "marshal" impl, assoc "own" impl with
+        | Some (PXR x), Some mr, Some own =>
+            match ok_bytes mr with
+            | None => HTrivial
+            | Some b =>
+                let sbs := map abs_block (xr_blocks x) in
+                if negb (forallb D_sblock sbs) then
+                  (* outside the well-formed domain nothing is claimed, except that an RLE block with an odd number of
+                     chunks (otherwise well-formed) must not be emitted unaligned *)
+                  (if forallb (fun s => D_sblock s || negb (rle_even s)) sbs && negb (len b mod 4 =? 0) then HFail [SY "unaligned_block"] else HTrivial)
+                else
+                match walk_blocks (S (List.length b)) (skipn 8 b) with
+                | None => HFail [SY "blocks_not_self_delimiting"]
+                | Some ws =>
+                    if negb (List.length ws =? List.length sbs)%nat then HFail [SY "block_count"] else
+                    if negb (forallb2 (fun w s => let '(bt, ts, _) := w in (bt =? bt_of s) && ts_ok s ts) ws sbs) then HFail [SY "block_header"] else
+                    match ok_packet own with
+                    | Some (PXR y) =>
+                        if D_XR x then (if XR_eqb x y then HPass else HFail [SY "blocks_differ_after_decode"]) else HPass
+                    | _ => if D_XR x then HFail [SY "own_output_rejected"] else HPass
+                    end
+                end
+            end
+        | _, _, _ => HTrivial
+        end
+      else HTrivial
+  | _ => HTrivial
+  end.
+
+(* ---------------- C16 ---------------- *)
+Definition unit_spec_enc (v : sval) : option (option bytes) :=   (* Some None = must be rejected *)
+  match v with
+  | SL (SY n :: l) =>
+      if String.eqb n "Header" then
+        let? h := p_header (SL l) in
+        Some (if 31 <? h_count h then None else Some (hdr (h_pad h) (h_count h) (h_type h) (h_len h)))
+      else if String.eqb n "ReceptionReport" then
+        let? r := p_rrep (SL l) in Some (if rr_lost r <? 16777216 then Some (enc_rrep r) else None)
+      else if String.eqb n "RunLengthChunk" then
+        let? c := p_tchunk v in match c with RLC _ s r => if fits 2 s && fits 13 r then Some (Some (be 2 (chunk_word c))) else None | _ => None end
+      else if String.eqb n "StatusVectorChunk" then
+        let? c := p_tchunk v in if chunk_ok c then Some (Some (be 2 (chunk_word c))) else None
+      else if String.eqb n "RecvDelta" then
+        let? d := p_delta (SL l) in
+        if (Z.rem (rd_delta d) 250 =? 0)%Z then Some (if delta_in_range d then Some (enc_delta d) else None) else None
+      else if String.eqb n "CCFeedbackMetricBlock" then
+        let? m := p_metric (SL l) in if D_metric m then Some (Some (enc_metric m)) else None
+      else None
+  | _ => None
+  end.
+Definition C16_holds (op impl : sval) : holds :=
+  match op with
+  | SL [SY o; a] =>
+      if String.eqb o "encu" then
+        match unit_spec_enc a with
+        | Some (Some b) => if sval_eqb impl (sres SB (Ok b)) then HPass else HFail [SY "unit_encode"; SY (sym_name (op_arg1 (SL [SY ""; a])))]
+        | Some None => if is_class "err" impl then HPass else HFail [SY "unit_out_of_range_accepted"]
+        | None => HTrivial
+        end
+      else if String.eqb o "rt" then
+        (* single-entry packets: encode-then-decode through the type's own decoder is the identity *)
+        match p_packet a, assoc "marshal" impl, assoc "own" impl with
+        | Some p, Some mr, Some own =>
+            if negb (in_D p) then HTrivial else
+            match ok_bytes mr, ok_packet own with
+            | Some _, Some v => if packet_eqb v (q p) then HPass else HFail [SY "entry_roundtrip"; tname p]
+            | _, _ => HFail [SY "entry_roundtrip"; tname p]
+            end
+        | _, _, _ => HTrivial
+        end
+      else HTrivial
+  | SL [SY o; SY n; SB b] =>
+      if String.eqb o "dec" then
+        (* decode-then-encode is the identity on canonical wire units; short / bad-version headers are rejected *)
+        if String.eqb n "Header" then
+          if (len b <? 4) || negb (b2n (nth 0 b x00) / 64 =? 2) then (if is_class "err" impl then HPass else HFail [SY "bad_header_accepted"])
+          else match ok_payload impl with
+               | Some v => match unit_spec_enc v with Some (Some b') => if bytes_eqb b' (firstn 4 b) then HPass else HFail [SY "unit_decode"; SY n] | _ => HFail [SY "unit_decode"; SY n] end
+               | None => HFail [SY "valid_unit_rejected"; SY n]
+               end
+        else if String.eqb n "RunLengthChunk" || String.eqb n "StatusVectorChunk" || String.eqb n "RecvDelta" || String.eqb n "ReceptionReport" || String.eqb n "CCFeedbackMetricBlock" then
+          let good_len := if String.eqb n "ReceptionReport" then 24 <=? len b else if String.eqb n "RecvDelta" then (len b =? 1) || (len b =? 2) else len b =? 2 in
+          if negb good_len then (if is_class "err" impl then HPass else HFail [SY "bad_length_accepted"; SY n]) else
+          let canonical :=
+            if String.eqb n "RunLengthChunk" then b2n (nth 0 b x00) <? 128
+            else if String.eqb n "StatusVectorChunk" then 128 <=? b2n (nth 0 b x00)
+            else if String.eqb n "CCFeedbackMetricBlock" then (128 <=? b2n (nth 0 b x00)) || bytes_eqb b [x00; x00]
+            else true in
+          if negb canonical then HTrivial else
+          match ok_payload impl with
+          | Some v => match unit_spec_enc v with
+                      | Some (Some b') => if bytes_eqb b' (if String.eqb n "ReceptionReport" then firstn 24 b else b) then HPass else HFail [SY "unit_decode"; SY n]
+                      | _ => HFail [SY "unit_decode"; SY n] end
+          | None => HFail [SY "valid_unit_rejected"; SY n]
+          end
+        else HTrivial
+      else HTrivial
+  | _ => HTrivial
+  end.
+
+(* ---------------- C17 / C18 ---------------- *)
+Definition C17_holds (op impl : sval) : holds :=
+  if is_class "panic" impl then HFail [SY "string_panics"; SY (match op with SL [_; SL (SY n :: _)] => n | SL [_; SY k; _] => k | _ => "decoded" end)]
+  else if is_class "err" impl then HTrivial else HPass.
+Definition C18_holds (op impl : sval) : holds :=
+  match op with
+  | SL [SY o; pk; SL ops] =>
+      if String.eqb o "hist" then
+        match p_packet pk, assoc "consistent" impl, assoc "final" impl with
+        | Some p, Some c, Some f =>
+            if negb (sval_eqb c (sbool true)) then HFail [SY "history_dependent"; tname p] else
+            match p_packet f with
+            | Some pf => if packet_eqb pf p then HPass else HFail [SY "packet_modified"; tname p]
+            | None => HFail [SY "malformed_observation"]
+            end
+        | _, _, _ => HTrivial
+        end
+      else HTrivial
+  | SL [SY o; _] =>
+      if String.eqb o "inbuf" then (if sval_eqb impl (SL [SY "unchanged"; sbool true]) then HPass else HFail [SY "input_buffer_modified"]) else HTrivial
+  | _ => HTrivial
+  end.
+
 Definition prop_holds (prop : string) (op impl meta : sval) : holds :=
-  if String.eqb prop "C12" then C12_holds op impl
+  if String.eqb prop "C01" then C01_holds op impl meta
+  else if String.eqb prop "C02" then C02_holds op impl
+  else if String.eqb prop "C03" then C03_holds op impl
+  else if String.eqb prop "C04" then
+    (match op with
+     | SL [SY o; SY n; SB b] => if String.eqb o "inflated" then C04_inflated op impl n else HTrivial
+     | _ => C04_holds op impl end)
+  else if String.eqb prop "C05" then C05_holds op impl
+  else if String.eqb prop "C06" then C06_holds op impl
+  else if String.eqb prop "C07" then C07_holds op impl
+  else if String.eqb prop "C08" then C08_holds op impl
+  else if String.eqb prop "C09" then C09_holds op impl
+  else if String.eqb prop "C10" then C10_holds op impl
+  else if String.eqb prop "C11" then C11_holds op impl
+  else if String.eqb prop "C12" then C12_holds op impl
+  else if String.eqb prop "C13" then C13_holds op impl
+  else if String.eqb prop "C14" then C14_holds op impl
+  else if String.eqb prop "C15" then C15_holds op impl
+  else if String.eqb prop "C16" then C16_holds op impl
+  else if String.eqb prop "C17" then C17_holds op impl
+  else if String.eqb prop "C18" then C18_holds op impl
   else HPass.
 Definition prop_agree (prop : string) (id op m i : sval) : option sval :=
   if String.eqb prop "C12" then C12_agree id op m i
+  else if String.eqb prop "C01" then C01_agree id m i
   else agree_all id m i.
 
 Definition check_one (id : sval) (prop : string) (op impl meta : sval) : sval :=
